@@ -132,3 +132,22 @@ Example ex_C13_validator :
   validate_pixels 3 true true true false [((0,1),5); ((1,1),1); ((0,1),7)] = inl ErrDup /\
   validate_pixels 3 true true true false [((0,1),5); ((1,1),1)] = inr [((0,1),5); ((1,1),1)].
 Proof. vm_compute. repeat split. Qed.
+
+(** ---- tie to the source by translation: the per-record predicates of _ingest._validate_pixels (negative id, id beyond
+    the bin table, lower-triangle pixel) are regenerated from the source on every run (tools/py2v.py -> Gen.vp_is_neg,
+    Gen.vp_is_excess, Gen.vp_is_tril) and the model's validator is exactly the cascade over them; the order of the checks,
+    the flag guarding each, the NaN test (D36), the duplicate test and the optional sort are pinned, as are the validator
+    chaining in create() and the fit check / store statements of write_pixels. *)
+From Cooler Require Import Gen.Translated Proofs.GenBridgeCreate.
+Theorem C13_source_validator_is_model : forall (V : Type) n bc tc dc es (c : list (key * V)),
+  validate_pixels n bc tc dc es c =
+  if bc && existsb (fun r => Gen.vp_is_neg (fst (fst r)) (snd (fst r))) c then inl ErrNeg
+  else if bc && existsb (fun r => Gen.vp_is_excess (fst (fst r)) (snd (fst r)) n) c then inl ErrExcess
+  else if tc && existsb (fun r => Gen.vp_is_tril (fst (fst r)) (snd (fst r))) c then inl ErrTril
+  else if dc && has_dup c then inl ErrDup
+  else inr (if es then sort_rows c else c).
+Proof. intros. apply gen_validate_pixels. Qed.
+Print Assumptions C13_source_validator_is_model.
+Theorem C13_source_pins : Gen.validate_pixels_source_pins = true /\ Gen.create_write_source_pins = true.
+Proof. exact gen_validate_pins. Qed.
+Print Assumptions C13_source_pins.
